@@ -110,7 +110,7 @@ def generate(rng, tier="quick"):
                                      "ordered"])
         if k in ("validate", "cli", "validate_cls", "suspend"):
             op["spelling"] = rng.choice(["known", "known", "known", "unknown", "future", "missing"])
-            op["extra"] = rng.choice([None, None, "format_checker", "bool_schema"])
+            op["extra"] = rng.choice([None, None, "format_checker", "bool_schema", "resolver"])
         if k == "cli":
             op["validator"] = rng.choice([None, None, "Draft3Validator", "jsonschema.Draft4Validator", "Draft6Validator"])
             op["pretty"] = rng.random() < 0.2
@@ -508,6 +508,18 @@ def execute(scn):
                     if isinstance(instance, dict):
                         instance = dict(instance, f="not an ip")
                     extra_kwargs = {"format_checker": jsonschema.FormatChecker()}
+                elif op.get("extra") == "resolver" and k in ("validate", "validate_cls"):
+                    # the schema is a fragment lifted out of a larger document of ANOTHER dialect, validated with a resolver
+                    # for that document: the class still comes from the schema's own $schema (or the latest draft)
+                    other = DRAFT_IDS[["draft3", "draft4", "draft6", "draft7"][op["a"] % 4]]
+                    if new_ids and op["v"] % 2:
+                        other = new_ids[op["a"] % len(new_ids)]
+                    referrer = {"$schema": other + ("#" if op["hash"] else ""), "definitions": {"x": {}}}
+                    extra_kwargs = {"resolver": V.RefResolver(base_uri="", referrer=referrer)}
+                    if op["v"] >= 2:
+                        schema.pop("$schema", None)
+                        u = None
+                    probe("validate_with_resolver_of_another_dialect")
                 elif op.get("extra") == "bool_schema" and k in ("validate", "validate_cls", "cli"):
                     schema, u = bool(op["v"] % 2), None
                 want, _ = model_select(schema)
